@@ -243,6 +243,10 @@ ZipRow(lists, r) == LET idx == SelectSeq([i \in 1..Len(lists) |-> i], LAMBDA i :
                     UObj([j \in 1..Len(idx) |-> DotKey(idx[j] - 1)], [j \in 1..Len(idx) |-> lists[idx[j]].a[r]])
 
 Sig2Str(vs) == vs[1].t = "str" /\ vs[2].t = "str"
+RX == INSTANCE Regex
+\* the AST of a pattern text, if the context brings one (c.re: a sequence of [p |-> text, ast |-> AST of Regex.tla])
+ReOf(c, pat) == IF "re" \in DOMAIN c /\ \E k \in 1..Len(c.re) : c.re[k].p = pat
+                THEN c.re[CHOOSE k \in 1..Len(c.re) : c.re[k].p = pat].ast ELSE [r |-> "unknown"]
 EvalCall(f, args, c) ==
   LET n == Len(args)
       nasFam == f \in {"\"+\"", "\"*\"", "\"-\"", "\"abs\"", "\"||\"", "\"=\"", "\"!=\"", "\"<\"", "\"<=\"", "\">\"", "\">=\"", "\"/\"", "\"%\"", "\"round\"", "?", "default"}
@@ -326,9 +330,19 @@ EvalCall(f, args, c) ==
     [] f = "parse" -> IF IsU(a1) THEN Unspec ELSE IF a1.t # "str" THEN Nothing
                       ELSE LET p == R!StrictParse(Utf8Enc(a1.c)) IN
                            IF p.ok /\ PlainNumbers(p.v) /\ R!DistinctKeys(p.v) THEN p.v ELSE Unspec
-    [] f \in {"match", "parse_time", "parse_time_with_zone"} ->
+    [] f \in {"parse_time", "parse_time_with_zone"} ->
          IF IsU(a1) \/ IsU(a2) THEN Unspec ELSE IF a1.t = "str" /\ a2.t = "str" THEN Unspec ELSE Nothing
-    [] f = "extract_regex_group" -> IF IsU(a1) \/ IsU(a2) \/ IsU(a3) THEN Unspec ELSE IF a1.t = "str" /\ a2.t = "str" /\ IsCount(a3) THEN Unspec ELSE Nothing
+    \* regular expressions: the documentation refers to the regex crate; Regex.tla gives the fragment a meaning (leftmost-first), the AST of a
+    \* pattern text comes with the context (c.re) - a pattern without one has no meaning here
+    [] f = "match" ->
+         IF IsU(a1) \/ IsU(a2) THEN Unspec ELSE IF a1.t # "str" \/ a2.t # "str" THEN Nothing
+         ELSE LET re == ReOf(c, a2.c) IN
+              IF re.r = "unknown" THEN Unspec ELSE IF ~RX!Valid(re) THEN Nothing ELSE B(RX!IsMatch(re, a1.c))
+    [] f = "extract_regex_group" ->
+         IF IsU(a1) \/ IsU(a2) \/ IsU(a3) THEN Unspec ELSE IF a1.t # "str" \/ a2.t # "str" \/ ~IsCount(a3) THEN Nothing
+         ELSE LET re == ReOf(c, a2.c) IN
+              IF re.r = "unknown" THEN Unspec ELSE IF ~RX!Valid(re) THEN Nothing
+              ELSE LET g == RX!GroupText(re, a1.c, CountOf(a3)) IN IF g.some THEN Str(g.text) ELSE Nothing
     [] f = "format_time" -> IF IsU(a1) \/ IsU(a2) THEN Unspec ELSE IF a1.t = "num" /\ a2.t = "str" THEN Unspec ELSE Nothing
     [] f \in {"base63_decode", "env", "parse_selection"} -> IF IsU(a1) THEN Unspec ELSE IF a1.t = "str" THEN Unspec ELSE Nothing
     \* ---- lists
